@@ -3,9 +3,9 @@
 package vaa
 
 import (
-	"time"
 	"fmt"
 	"testing"
+	"time"
 
 	vh "github.com/alephium/wormhole-fork/node/zzverif"
 	"github.com/ethereum/go-ethereum/common"
@@ -27,9 +27,9 @@ type c06Corr struct {
 }
 
 type c06Case struct {
-	N       int         `json:"n"`       // guardian list length
-	KeyOf   []int       `json:"keyof"`   // pool key of list position i (repeats allowed)
-	Sigs    []c06Sig    `json:"sigs"`    // in wire order
+	N       int         `json:"n"`     // guardian list length
+	KeyOf   []int       `json:"keyof"` // pool key of list position i (repeats allowed)
+	Sigs    []c06Sig    `json:"sigs"`  // in wire order
 	Body    vh.BodyCase `json:"body"`
 	Corr    *c06Corr    `json:"corr,omitempty"`
 	ListCut int         `json:"listcut"` // verify against list[:N-ListCut]
